@@ -23,6 +23,8 @@ PeerHost == {T(i[1], i[2], 2, <<n>>) : i \in {<<"M", "callpeer">>, <<"A", "peer"
 Heavy == {T("M", "recfin", 100000000, <<>>), T("M", "recinf", 0, <<>>), T("M", "recinf", 1, <<>>), T("M", "recinf", 2, <<>>)}
 Via == {T("M", "viahost", 1, s) : s \in Scripts1 \cup Scripts2}
 Reuse == {T("M", "recfin", 100000000, <<>>), T("M", "recfin", 3, <<>>), T("M", "recinf", 1, <<>>), T("M", "mark", 1, <<>>)}
+(* a failure deep in a recursion, then a deep (but legal) recursion on the same function objects: frames left behind by the failure count *)
+DeepReuse == {T("M", "recmix", 1601, <<>>), T("M", "recmix", 2600, <<>>), T("M", "recmix", 6, <<>>)}
 TopsAll == Plain \cup Via \cup Heavy \cup PeerHost \cup Deep
 TopsLight == Plain \cup Via \cup PeerHost \cup Deep
 TopsCore == {T("M", "callpeer", 2, <<Exit(3)>>), T("M", "recfin", 3, <<>>), T("M", "mark", 1, <<>>), T("A", "peer", 0, <<>>), T("M", "callpeer", 1, <<>>), T("M", "trap", 0, <<>>), T("M", "rectrap", 2, <<>>)} \cup
